@@ -257,6 +257,21 @@ def run_hx(sub, tier, seed, extra_env=None, timeout=3000):
                 with open(key, "w", encoding="utf-8") as f:
                     f.write(out)
             return rc, out, err
+    # the random-program net is shared by four properties and deterministic per (binary, tier, seed)
+    if sub == ["progen"] and not extra_env:
+        prefix = "progen-%s-%d-" % (tier, seed)
+        key = os.path.join(CACHE, "%s%s.out" % (prefix, file_sha1(HX)[:16]))
+        with Lock("progen"):
+            if os.path.exists(key):
+                return 0, open(key, encoding="utf-8").read(), ""
+            rc, out, err = run_hx_raw(sub, tier, seed, extra_env, timeout)
+            if rc == 0:
+                for old in os.listdir(CACHE):
+                    if old.startswith(prefix) and old.endswith(".out"):
+                        os.unlink(os.path.join(CACHE, old))
+                with open(key, "w", encoding="utf-8") as f:
+                    f.write(out)
+            return rc, out, err
     return run_hx_raw(sub, tier, seed, extra_env, timeout)
 
 
